@@ -79,7 +79,9 @@ def run(rep, idx, tier):
     g = c.parse("wb.granularity", env)
     env["g"] = g
     ds = c.drivers_of(c.parse("csr.w_data", env))
-    if not ds or {d.domain for d in ds} != {"comb"}:
+    if not ds and c.overlapping(c.parse("csr.w_data", env)):
+        rep.unk("C10.1", site, "csr.w_data", "driven bit by bit / slice by slice; the rule compares the signal as a whole and does not assemble it")
+    elif not ds or {d.domain for d in ds} != {"comb"}:
         rep.bad("C10.1", site, "csr.w_data", "must be driven combinationally")
     else:
         # write data only matters while a strobe can be issued: compare under "transfer in state k"
